@@ -318,6 +318,7 @@ func bitSizes(r *core.Run, rel, fn string) {
 	}
 	info := pk.TypesInfo
 	width := map[string]int{"ValueOfInt32": 32, "ValueOfUint32": 32, "ValueOfInt64": 64, "ValueOfUint64": 64, "ValueOfFloat32": 32, "ValueOfFloat64": 64}
+	parsed := map[string]bool{}
 	n := 0
 	ast.Inspect(fd.Body, func(nd ast.Node) bool {
 		cc, ok := nd.(*ast.CaseClause)
@@ -329,6 +330,7 @@ func bitSizes(r *core.Run, rel, fn string) {
 		var ctorName string
 		var parseBits int64 = -1
 		var parsePos token.Pos
+		parseName := ""
 		for _, st := range cc.Body {
 			ast.Inspect(st, func(x ast.Node) bool {
 				if _, nested := x.(*ast.CaseClause); nested {
@@ -346,7 +348,7 @@ func bitSizes(r *core.Run, rel, fn string) {
 					}
 				case name == "strconv.ParseInt" || name == "strconv.ParseUint":
 					if k, ok := core.ConstInt(info, c.Args[2]); ok {
-						parseBits, parsePos = k, c.Pos()
+						parseBits, parsePos, parseName = k, c.Pos(), name
 					}
 				case name == "strconv.ParseFloat":
 					if k, ok := core.ConstInt(info, c.Args[1]); ok {
@@ -355,7 +357,7 @@ func bitSizes(r *core.Run, rel, fn string) {
 				case strings.HasSuffix(name, "ASTValue).AsInt") || strings.HasSuffix(name, "ASTValue).AsUint") || strings.HasSuffix(name, "ASTValue).AsFloat"):
 					if len(c.Args) == 1 {
 						if k, ok := core.ConstInt(info, c.Args[0]); ok {
-							parseBits, parsePos = k, c.Pos()
+							parseBits, parsePos, parseName = k, c.Pos(), name
 						}
 					}
 				}
@@ -369,8 +371,13 @@ func bitSizes(r *core.Run, rel, fn string) {
 		if parseBits >= 0 && !strings.Contains(ctorName, "Float") {
 			n++
 			o := r.Add("R-FLOW/F2", fmt.Sprintf("%s.%s | %s | parse bits", rel, fn, label), parsePos, fmt.Sprintf("parse with %d bits feeding %s", parseBits, ctorName))
-			if int(parseBits) == width[ctorName] {
-				o.Auto("%d-bit parse into %s", parseBits, ctorName)
+			unsignedParse := strings.HasSuffix(parseName, "ParseUint") || strings.HasSuffix(parseName, "AsUint")
+			unsignedCtor := strings.Contains(ctorName, "Uint")
+			if unsignedParse != unsignedCtor {
+				o.Fail("%s feeds %s: the signedness of the parse differs from the field's, so half of the field's range is rejected (or negative input wraps)", parseName[strings.LastIndex(parseName, ".")+1:], ctorName)
+			} else if int(parseBits) == width[ctorName] {
+				o.Auto("%d-bit %s into %s", parseBits, parseName[strings.LastIndex(parseName, ".")+1:], ctorName)
+				parsed[ctorName] = true
 			} else if int(parseBits) < width[ctorName] {
 				o.Fail("parsed with %d bits but stored with %s: values outside the %d-bit range are rejected although the field holds %d bits", parseBits, ctorName, parseBits, width[ctorName])
 			} else {
@@ -412,6 +419,17 @@ func bitSizes(r *core.Run, rel, fn string) {
 		return true
 	})
 	r.Analysed["bit_size_sites_"+fn] = n
+	// every integer width/signedness has a text parse of its own: the
+	// encoder writes 64-bit integers as quoted strings, and a parse shared
+	// between kinds cannot cover both int64 and uint64
+	for _, ctor := range []string{"ValueOfInt32", "ValueOfInt64", "ValueOfUint32", "ValueOfUint64"} {
+		o := r.Add("R-FLOW/F2", fmt.Sprintf("%s.%s | %s | has its own text parse", rel, fn, ctor), fd.Pos(), "text form of the integer kind stored by "+ctor)
+		if parsed[ctor] {
+			o.Auto("a case clause parses text with the signedness and width of %s", ctor)
+		} else {
+			o.Fail("no case clause parses text with the signedness and width of %s: quoted integers of that kind are either rejected or go through another kind's parse", ctor)
+		}
+	}
 }
 
 func clauseLabel(info *types.Info, fd *ast.FuncDecl, cc *ast.CaseClause) string {
